@@ -364,9 +364,9 @@ impl Prop for C13 {
         "cases = request grammar (9 methods; target '/' + bytes other than SP/CR/LF incl. non-UTF-8 and NUL, 0..60 bytes; HTTP/d+.d+; 0..5 'name:value' header lines with arbitrary value bytes; CRLF or bare LF chosen per line; optional trailing bytes) x transport (UDP datagram / one segment, or two segments cut anywhere behind the signature, on a handshaken TCP flow) x both IP versions x random ports x log level Off..Trace (the 401 path logs verb and target at Warn), and single-fault corruptions: unknown method (not completing any signature), byte of 'HTTP/' replaced, non-digit version, missing version, header line without colon, terminating empty line removed, truncation at every position before the end, a CR inside a header field name. Keep-alive: 1..3 complete requests, one per segment of ONE connection, optionally followed by one more request that is well-formed or carries one of the faults: every complete request is answered as above, the faulty one is not (nothing is judged after a faulty request). Oracle: independent LF-tolerant response parser: status line HTTP/1.1 401, WWW-Authenticate present, Content-Length = number of body bytes; faulty requests get no application reply (UDP silence, TCP bare ACK). Non-trivial = every case (decides one request); distinct by hash of (bytes, transport)."
     }
     fn run(&self, ctx: &mut RunCtx) {
-        let n = ctx.share(ctx.tier.n(600_000, 8_000_000));
+        let n = ctx.share(ctx.tier.n(2_000_000, 16_000_000));
         ctx.run_generated("http", n, case_strategy(), check);
-        let m = ctx.share(ctx.tier.n(200_000, 3_000_000));
+        let m = ctx.share(ctx.tier.n(600_000, 5_000_000));
         ctx.run_generated("keep-alive", m, keepalive_strategy(), keepalive_check);
     }
     fn replay(&self, stream: &str, case: &Value, st: &mut Stats) -> Check {
